@@ -8,11 +8,12 @@ import ast
 
 from ..gen import EXTRA, REPO, Kernel, Untranslatable, all_stmts, register
 from ..pyexpr import ExprTr, emit_def, find_function, parse_file, translate_block
+from . import c11_state
 
 SSL = "direct/ssl/ssl.py"
 FILL = "direct/ssl/mask_fillers.py"
 PYX = "direct/ssl/_gaussian_fill.pyx"
-IMPORTS = ("DirectVerif.Model.SslSplit",)
+IMPORTS = ("DirectVerif.Model.SslSplit", "DirectVerif.Model.SslHistory")
 _REGION_BINDS = {"nrow": "nrow", "ncol": "ncol", "self.acs_region[0]": "a0", "self.acs_region[1]": "a1"}
 
 
@@ -454,13 +455,11 @@ def _inside_with(fn: ast.FunctionDef, call_text: str) -> bool:
 
 
 def _seeds(tree) -> str:
-    fwd = find_function(tree, "MaskSplitter.forward")
-    want = "tuple(map(ord,str(sample['filename'][_])+str(sample['slice_no'][_])))"
-    hits = [n for n in ast.walk(fwd) if isinstance(n, ast.IfExp) and _txt(n.orelse) == want]
-    if len(hits) != 1 or _txt(hits[0].body) != "None":
+    # the seed handed to `split_method` (in `forward` or a helper it calls per sample): which of the two strings comes
+    # first in the concatenation, and when it is `None`
+    _, order, none_when = c11_state.seed_tables()
+    if order is None or none_when is None:
         raise Untranslatable("seed expression `None if not self.use_seed else tuple(map(ord, str(filename) + str(slice_no)))` not found")
-    tr = ExprTr({}, {"self.use_seed": "use_seed"})
-    none_when = tr.bool(hits[0].test)
     g = find_function(tree, "MaskSplitter._gaussian_split")
     red = [st for st in all_stmts(g) if isinstance(st, ast.Assign) and ast.unparse(st.targets[0]) == "seed"
            and _txt(st.value) in ("int(np.mean(seed))", "int(np.sum(seed))", "int(sum(seed))")]
@@ -469,7 +468,7 @@ def _seeds(tree) -> str:
     body = ("Int.fdiv (t.sum : Int) (t.length : Int)" if "mean" in _txt(red[0].value) else "(t.sum : Int)")
     return (
         "/-- translated from `MaskSplitter.forward`: code points of `str(filename) + str(slice_no)` -/\n"
-        "def seed_tuple (filename slice : List Nat) : List Nat := filename ++ slice\n"
+        f"def seed_tuple (filename slice : List Nat) : List Nat := {order}\n"
         f"def seed_is_none (use_seed : Bool) : Bool := {none_when}\n"
         "/-- translated from `_gaussian_split`: `int(np.mean(seed))` (truncated mean of non-negative code points) -/\n"
         f"def gaussian_seed (t : List Nat) : Int := {body}\n"
@@ -677,10 +676,16 @@ def _reads_fallback(name: str) -> str:
             '    project := "target_sampling_mask", lossK := "kspace", lossImage := "target" }\n')
 
 
-def _engine_kpath(cls: str, name: str) -> str:
+VSHARP = "direct/nn/vsharp/vsharp_engine.py"
+_VSHARP_KPATH = ["dc:kspace+self._forward_operator(output_image,data['sensitivity_map'],~mask)",
+                 "mask:output_kspace:data['target_sampling_mask']",
+                 "dc:kspace+self._forward_operator(output_images[-1],data['sensitivity_map'],~mask)"]
+
+
+def _engine_kpath(cls: str, name: str, rel: str = None) -> str:
     """the k-space path of the training step, in source order: complement mask on the prediction, data consistency,
     projection on the target mask"""
-    fn = find_function(parse_file(REPO / SSLENG), f"{cls}._do_iteration")
+    fn = find_function(parse_file(REPO / (rel or SSLENG)), f"{cls}._do_iteration")
     steps = []
     for st in all_stmts(fn):
         if isinstance(st, ast.Assign) and len(st.targets) == 1 and ast.unparse(st.targets[0]) == "output_kspace":
@@ -753,6 +758,15 @@ def _c11_extra():
     attempt("jssl_engine_kpath", lambda: _engine_kpath("JSSLMRIModelEngine", "jssl_engine_kpath"),
             "def jssl_engine_kpath : List String := " + _lstr(_KPATH) + "\n")
     attempt("seeds", lambda: _seeds(tree if tree is not None else need("x")), _SEED_FALLBACK)
+    # structural tables: state kept between calls, what the seed derivation may call, admissible ratios
+    attempt("state_writes", c11_state.state_tables, c11_state.STATE_FALLBACK)
+    attempt("seed_calls", lambda: c11_state.seed_tables()[0], c11_state.SEED_CALLS_FALLBACK)
+    attempt("ratio_guard", c11_state.ratio_guard, c11_state.RATIO_FALLBACK)
+    attempt("engine_sites", c11_state.engine_sites, c11_state.ENGINE_SITES_FALLBACK)
+    attempt("vsharp_ssl_engine_kpath", lambda: _engine_kpath("VSharpNetSSLEngine", "vsharp_ssl_engine_kpath", VSHARP),
+            "def vsharp_ssl_engine_kpath : List String := " + _lstr(_VSHARP_KPATH) + "\n")
+    attempt("vsharp_jssl_engine_kpath", lambda: _engine_kpath("VSharpNetJSSLEngine", "vsharp_jssl_engine_kpath", VSHARP),
+            "def vsharp_jssl_engine_kpath : List String := " + _lstr(_VSHARP_KPATH[:2]) + "\n")
     return "\n".join(chunks), status
 
 
